@@ -148,12 +148,14 @@ var All = []*Prop{
 	},
 	{
 		ID:    "C07",
-		Rules: []*core.Rule{rules.FreshArray, rules.StaleLen, rules.SpareCap, rules.SortBound, rules.LenWritable, rules.OverrideClosure},
+		Rules: []*core.Rule{rules.FreshArray, rules.StaleLen, rules.SpareCap, rules.SortBound, rules.LenWritable, rules.OverrideClosure, rules.ElemCount, rules.TruncAgree, rules.RawResize},
 		Explanation: "Clauses decided (necessary conditions, not the behaviour): (1) 'generic vs fast paths inside methods': R-FRESH-ARRAY runs the guard-freshness dataflow over every function that obtains a *arrayObject from checkStdArray*/checkStdArrayObj*: each read of .values (and of an element or sub-slice of a snapshot loaded from it) must be reached only by paths on which no call that may run script (species constructors, callbacks, Proxy traps, valueOf/toString, getters) happened since the check - otherwise the fast path reads a stale dense snapshot where the generic algorithm re-reads through [[Get]]. " +
 			"R-STALELEN is the same dataflow on integers: an index or slice bound into the snapshot that is computed from the toLength(...) result read at the start of the method needs, on every path, either no script-running call since that read or an equality test of the old length against the array's current length/len(values) (otherwise a shrunk array is indexed out of range: a Go panic escaping to the host). R-SORTBOUND: the in-place sort of Go-backed arrays compares every index with the current sortLen() before sortGet/swap (the comparator runs between accesses). " +
 			"(2) 'switching storage strategy / bookkeeping counters': R-SPARECAP also requires every function that removes elements from .values (in-place shrink or nil store) to update objCount, because checkStdArrayObj takes objCount == length == len(values) as proof of density and an over-count lets a holey array pass. R-SPARECAP classifies every store to arrayObject.values (fresh, same, grow-under-cap-check, shrink) and requires each in-place shrink to nil the slots it cuts off, which the grow-into-capacity sites (expand, unshift, splice) rely on. " +
 			"(3) 'defineProperty on length': R-LENWRITABLE - in defineArrayLength every path from the storage's length-setter call to a return reads descr.Writable (ArraySetLength defers writable:false past a blocked truncation, never drops it). " +
-			"(4) every array storage kind (arrayObject, sparseArrayObject, objectGoSlice, objectGoArrayReflect, objectGoSliceReflect, dynamicArray) overrides the complete index-aware method set (R-OVERRIDECLOSURE), so no baseObject string-key implementation is reached for an index key.",
+			"(4) every array storage kind (arrayObject, sparseArrayObject, objectGoSlice, objectGoArrayReflect, objectGoSliceReflect, dynamicArray) overrides the complete index-aware method set (R-OVERRIDECLOSURE), so no baseObject string-key implementation is reached for an index key. " +
+			"(5) 'switching storage is never observable / non-configurable tail': R-ELEMCOUNT - a value coming out of _defineOwnProperty (possibly a *valueProperty) that is stored into the element storage of an array object is counted in propValueCount (and objCount) of the object that receives it, also when that is the object the array has just been converted into; objCount grows only under `existing == nil`; the conversions in expand() carry propValueCount over. R-TRUNCAGREE - in both _setLengthInt the range scanned for non-configurable elements is exactly the range cut off (loop boundary operator vs. slice bound / findIdx predicate). " +
+			"R-RAWRESIZE - a built-in that resizes a guarded array in place (assigns .values, setArrayValues, writes .length) does so under lengthProp.writable, and under extensible when it may add elements, or the array comes from checkNewStdArrayObj.",
 		Technique:  "guard-freshness dataflow (forward must-analysis over SSA with inter-procedural summaries and a may-run-script call-graph fact); store classification with dominance/loop-header discharge; must-pass-through on the SSA CFG; method-set override closure",
 		DesignRef:  "DESIGN.md section 4, C07",
 		NotCovered: "index arithmetic inside the fast paths once the length is validated, the sort algorithm (stability, permutation), the arithmetic of ArraySetLength with non-configurable tails, sparse<->dense transition heuristics and the contents they carry over, agreement of each generic algorithm with the specification text",
@@ -275,11 +277,11 @@ var All = []*Prop{
 	},
 	{
 		ID:    "C04",
-		Rules: []*core.Rule{rules.SetOwnGuard, rules.OverrideClosure, rules.LazyOrder, rules.PropCounters, rules.KeyKindAgree, rules.CowNames},
+		Rules: []*core.Rule{rules.SetOwnGuard, rules.OverrideClosure, rules.LazyOrder, rules.PropCounters, rules.KeyKindAgree, rules.CowNames, rules.ElemCount, rules.TruncAgree, rules.RawResize},
 		Explanation: "R-SETOWNGUARD (OrdinarySet belief, sibling contradiction rule): in every function carrying the Receiver of a [[Set]] (a `receiver Value` parameter), each X.self.setOwn{Str,Idx,Sym} call is control-dependent on receiver == X for the same SSA value X. " +
 			"R-OVERRIDECLOSURE: from go/types method sets, for each of the ~50 object kinds and each key kind K, if getOwnProp<K> resolves outside baseObject (the kind answers [[GetOwnProperty]] from custom storage) then get/hasOwnProperty/delete/defineOwnProperty/setOwn/setForeign/hasProperty<K> and the matching enumerators also resolve outside baseObject, or the baseObject version provably only dispatches back through o.val.self to overridden methods, or the (kind, method) pair is an audited table exception. " +
 			"Key-order bookkeeping (index keys are moved to the front lazily): R-LAZYORDER - every read of idxPropCount outside the bookkeeping is dominated by ensurePropOrder()/fixPropOrder() on the same object ('no index keys' shortcuts are only valid on an up-to-date counter); R-PROPCOUNTERS - in _delete each of lastSortedPropLen/idxPropCount is decremented under the comparison of the removed position with that very counter and under no comparison with the smaller one. " +
-			"R-KEYKINDAGREE: (*Object).setStr / setIdx / setSym call the same functions modulo key kind, invoke the same interface methods and read the same fields of the property record. R-COWNAMES: every in-place element write into a slice obtained from baseObject.propNames is control-dependent on !namesMarkedForCopy, or follows a copy-on-write branch (marker tested, fresh array installed), or is in the audited table - an enumeration in progress shares that backing array.",
+			"R-KEYKINDAGREE: (*Object).setStr / setIdx / setSym call the same functions modulo key kind, invoke the same interface methods and read the same fields of the property record. R-COWNAMES: every in-place element write into a slice obtained from baseObject.propNames is control-dependent on !namesMarkedForCopy, or follows a copy-on-write branch (marker tested, fresh array installed), or is in the audited table - an enumeration in progress shares that backing array. R-ELEMCOUNT / R-TRUNCAGREE / R-RAWRESIZE (see C07) decide the array side of 'a non-configurable property cannot be deleted' and 'a non-extensible object gains no keys': the counters that let ArraySetLength skip the search for non-configurable elements are exact, the search covers what the cut removes, and in-place resizes respect extensible / writable length.",
 		Technique:  "control dependence on a receiver-identity test (SSA); method-set matrix closure over go/types with virtual-dispatch discharge; dominance of a refresh call; controlling-condition sets of counter decrements",
 		DesignRef:  "DESIGN.md section 4, C04",
 		NotCovered: "the decision table of ValidateAndApplyPropertyDescriptor (_defineOwnProperty), the sorting done by fixPropOrder itself, freeze/seal outcomes, ArraySetLength, per-kind exotic semantics: value-level; R-EXTENSIBLE is not armed",
